@@ -168,7 +168,7 @@ Definition P07 (c : config) (ev : evaluator) (r : request) (w : world) (o : obs)
           negb (rs_allowed resp) && opt_eqb Z.eqb (rs_code resp) (Some 400%Z) && has_error_ann resp
           && negb (has_eval (snd o)) && Nat.eqb (count_ev (is_merror true) (snd o)) 1
         else
-          (* never admitted unevaluated: allowed only if insignificant, exempt by runtime class, or compliant *)
+          (* never let through unevaluated: allowed only if insignificant, exempt by runtime class, or compliant *)
           match r_object r with
           | OPod p =>
               let insignificant := match r_op r, r_old r with
